@@ -717,6 +717,27 @@ def clean_goal(ex, name, atom, assumptions, info=None):
         ex.pc = saved
 
 
+def free_vars(e, acc=None, seen=None):
+    acc = set() if acc is None else acc
+    seen = set() if seen is None else seen
+    stack = [e]
+    while stack:
+        t = stack.pop()
+        if t.get_id() in seen:
+            continue
+        seen.add(t.get_id())
+        if z3.is_const(t) and t.decl().kind() == z3.Z3_OP_UNINTERPRETED:
+            acc.add(t.decl().name())
+        else:
+            stack.extend(t.children())
+    return acc
+
+
+def pc_over(ex, allowed):
+    """the path-condition entries whose variables all satisfy `allowed(name)`"""
+    return [c for c in ex.pc if all(allowed(n) for n in free_vars(c))]
+
+
 def holds(atom):
     return z3.Not(atom.neg(0))
 
@@ -819,8 +840,13 @@ def make_treigen(zero_matrix, max_secular_iters, rotation=None):
             rN = define(ex, 'pNorm', rN)
             if all_finite([rN]):
                 lemma('secular_norm_is_a_nonnegative_root', Holds(z3.And(U(rN) >= 0, U(rN) * U(rN) == U(pN))) if ex.symbolic else Eq(rN * rN, pN))
-                lemma('exit_test_passed[<=]', Le(U(rN - Delta), U(1e-9 * Delta)))
-                lemma('exit_test_passed[>=]', Le(U(Delta - rN), U(1e-9 * Delta)))
+                # decided from the path-condition entries over (Delta, the code's square roots and quotients) only
+                small = pc_over(ex, lambda n: n in ('Delta', 'px_pNorm') or n.startswith('px_sqrt') or n.startswith('px_quot')) if ex.symbolic else []
+                for nm, at in (('exit_test_passed[<=]', Le(U(rN - Delta), U(1e-9 * Delta))), ('exit_test_passed[>=]', Le(U(Delta - rN), U(1e-9 * Delta)))):
+                    clean_goal(ex, G(nm), at, small)
+                    if ex.symbolic:
+                        ex.pc.append(holds(at))
+                    lemmas.append(holds(at) if ex.symbolic else True)
                 lo, hi = Delta - 1e-9 * Delta, Delta + 1e-9 * Delta
                 clean_goal(ex, G('step_norm_within_1e-9_of_radius[<=]'), Le(U(xx), U(hi * hi)), base + lemmas)
                 clean_goal(ex, G('step_norm_within_1e-9_of_radius[>=]'), Le(U(lo * lo), U(xx)), base + lemmas)
